@@ -10,13 +10,14 @@ From LSGen Require Import GenSrc.
 Open Scope N_scope.
 
 Record ghost := { g_refs : bufid -> nat; g_excl : bufid -> bool; g_free : bufid -> bool;
-                  g_fen : bool (* an acquire fence has been executed since this thread's last RMW *) }.
+                  g_fen : bool (* an acquire fence has been executed since this thread's last RMW *);
+                  g_bor : bufid -> bool (* the thread reads b through a &handle lent to it by another thread *) }.
 Definition acq (o : ord) : bool := match o with Acquire | AcqRel | SeqCst => true | _ => false end.
 Definition rel (o : ord) : bool := match o with Release | AcqRel | SeqCst => true | _ => false end.
 Definition setf {A} (f : bufid -> A) (b : bufid) (x : A) : bufid -> A := fun b' => if Nat.eqb b' b then x else f b'.
 
 Definition can_read (g : ghost) (b : bufid) : Prop :=
-  (0 < g_refs g b)%nat \/ g_excl g b = true \/ (g_free g b = true /\ g_fen g = true).
+  (0 < g_refs g b)%nat \/ g_excl g b = true \/ (g_free g b = true /\ g_fen g = true) \/ g_bor g b = true.
 
 Fixpoint okc {R} (c : cmd R) (g : ghost) (Q : R -> ghost -> Prop) : Prop :=
   match c with
@@ -25,23 +26,23 @@ Fixpoint okc {R} (c : cmd R) (g : ghost) (Q : R -> ghost -> Prop) : Prop :=
   | Alloc _ k =>
       okc (k None) g Q
       /\ forall b, g_refs g b = 0%nat -> g_excl g b = false -> g_free g b = false ->
-           okc (k (Some b)) {| g_refs := setf (g_refs g) b 1%nat; g_excl := setf (g_excl g) b true; g_free := g_free g; g_fen := g_fen g |} Q
+           okc (k (Some b)) {| g_refs := setf (g_refs g) b 1%nat; g_excl := setf (g_excl g) b true; g_free := g_free g; g_fen := g_fen g; g_bor := g_bor g |} Q
   | Realloc b _ _ k => g_excl g b = true /\ forall ok, okc (k ok) g Q
   | Dealloc b _ k => g_free g b = true /\ g_fen g = true
-                     /\ okc k {| g_refs := g_refs g; g_excl := g_excl g; g_free := setf (g_free g) b false; g_fen := g_fen g |} Q
+                     /\ okc k {| g_refs := g_refs g; g_excl := g_excl g; g_free := setf (g_free g) b false; g_fen := g_fen g; g_bor := g_bor g |} Q
   | HdrInit b _ k => g_excl g b = true /\ okc k g Q
   | HdrCap b k => can_read g b /\ forall v, okc (k v) g Q
   | Rmw b true _ k =>
-      (0 < g_refs g b)%nat
-      /\ forall v, okc (k v) {| g_refs := setf (g_refs g) b (S (g_refs g b)); g_excl := setf (g_excl g) b false; g_free := g_free g; g_fen := false |} Q
+      ((0 < g_refs g b)%nat \/ g_bor g b = true)      (* clone: through an own handle, or through a borrowed one *)
+      /\ forall v, okc (k v) {| g_refs := setf (g_refs g) b (S (g_refs g b)); g_excl := setf (g_excl g) b false; g_free := g_free g; g_fen := false; g_bor := g_bor g |} Q
   | Rmw b false o k =>
       (0 < g_refs g b)%nat /\ g_free g b = false /\ rel o = true
       /\ forall v, okc (k v) {| g_refs := setf (g_refs g) b (g_refs g b - 1)%nat; g_excl := setf (g_excl g) b false;
-                                g_free := setf (g_free g) b (v =? 1); g_fen := false |} Q
+                                g_free := setf (g_free g) b (v =? 1); g_fen := false; g_bor := g_bor g |} Q
   | Load b o k =>
       (0 < g_refs g b)%nat /\ acq o = true
-      /\ forall v, okc (k v) {| g_refs := g_refs g; g_excl := setf (g_excl g) b (g_excl g b || (v =? 1)); g_free := g_free g; g_fen := g_fen g |} Q
-  | Fence o k => okc k {| g_refs := g_refs g; g_excl := g_excl g; g_free := g_free g; g_fen := g_fen g || acq o |} Q
+      /\ forall v, okc (k v) {| g_refs := g_refs g; g_excl := setf (g_excl g) b (g_excl g b || (v =? 1)); g_free := g_free g; g_fen := g_fen g; g_bor := g_bor g |} Q
+  | Fence o k => okc k {| g_refs := g_refs g; g_excl := g_excl g; g_free := g_free g; g_fen := g_fen g || acq o; g_bor := g_bor g |} Q
   | Read (PHeap b) _ _ k => can_read g b /\ forall bs, okc (k bs) g Q
   | Read (PStatic _) _ _ k => forall bs, okc (k bs) g Q
   | Write (PHeap b) _ _ k => g_excl g b = true /\ okc k g Q
@@ -91,7 +92,7 @@ Proof.
   - destruct p as [b|s0]; [|exact H]. destruct H as (H1 & H2). split; [exact H1|]. eapply IH; eauto.
 Qed.
 
-Ltac gs := cbn [g_refs g_excl g_free g_fen]; unfold setf; rewrite ?Nat.eqb_refl.
+Ltac gs := cbn [g_refs g_excl g_free g_fen g_bor]; unfold setf; rewrite ?Nat.eqb_refl.
 
 (* the thread holds a reference for handle r *)
 Definition holds (g : ghost) (r : repr) : Prop :=
@@ -103,7 +104,7 @@ Definition settled (g : ghost) : Prop := forall b, g_free g b = false.
 Lemma ok_clone r g : holds g r -> okc (make_shallow_clone r) g (fun r' g' => r' = r /\ holds g' r).
 Proof.
   destruct r as [bs|b l|s l]; cbn [make_shallow_clone holds]; intros H; try (cbn [okc]; auto).
-  destruct H as (H1 & H2). apply okc_bind. cbn [rmw okc]. split; [exact H1|]. intros v. cbn [okc]. split; [reflexivity|].
+  destruct H as (H1 & H2). apply okc_bind. cbn [rmw okc]. split; [left; exact H1|]. intros v. cbn [okc]. split; [reflexivity|].
   cbn [holds]. gs. split; [lia|exact H2].
 Qed.
 
@@ -126,7 +127,7 @@ Proof.
   destruct (N.eqb_spec v 1) as [->|Hne].
   - apply okc_bind. cbn [fence okc]. apply okc_bind. unfold heap_dealloc. apply okc_bind. cbn [hdr_cap okc].
     (* the fence is at least Acquire: ord_replace_inner_1, regenerated from the source *)
-    split; [right; right; gs; split; reflexivity|]. intros c. cbn [okc].
+    split; [right; right; left; gs; split; reflexivity|]. intros c. cbn [okc].
     destruct (layout_from_capacity c) as [sz|]; [|exact I]. cbn [dealloc okc]. gs.
     split; [reflexivity|]. split; [reflexivity|]. split; [reflexivity|]. split; [|split].
     + intros b'. gs. destruct (Nat.eqb b' b); [reflexivity|apply Hs].
@@ -168,7 +169,7 @@ Ltac cons_tac := let x := fresh "x" in intros x; cbn [nm g_refs]; unfold setf;
 Lemma ok_allocate_ptr c g (Q : option bufid -> ghost -> Prop) :
   Q None g ->
   (forall b, g_refs g b = 0%nat -> g_excl g b = false -> g_free g b = false ->
-     Q (Some b) {| g_refs := setf (g_refs g) b 1%nat; g_excl := setf (g_excl g) b true; g_free := g_free g; g_fen := g_fen g |}) ->
+     Q (Some b) {| g_refs := setf (g_refs g) b 1%nat; g_excl := setf (g_excl g) b true; g_free := g_free g; g_fen := g_fen g; g_bor := g_bor g |}) ->
   okc (allocate_ptr c) g Q.
 Proof.
   intros Hn Hs. unfold allocate_ptr. destruct (layout_from_capacity c) as [sz|]; [|exact Hn].
@@ -179,7 +180,7 @@ Qed.
 Lemma ok_alloc_copy c t l g (Q : option repr -> ghost -> Prop) :
   Q None g ->
   (forall b, g_refs g b = 0%nat -> g_excl g b = false -> g_free g b = false ->
-     Q (Some (Heap b l)) {| g_refs := setf (g_refs g) b 1%nat; g_excl := setf (g_excl g) b true; g_free := g_free g; g_fen := g_fen g |}) ->
+     Q (Some (Heap b l)) {| g_refs := setf (g_refs g) b 1%nat; g_excl := setf (g_excl g) b true; g_free := g_free g; g_fen := g_fen g; g_bor := g_bor g |}) ->
   okc (ob <- allocate_ptr c ;; match ob with None => Ret None | Some b => write (PHeap b) 0 t ;;; Ret (Some (Heap b l)) end) g Q.
 Proof.
   intros Hn Hs. apply okc_bind. apply ok_allocate_ptr; [exact Hn|]. intros b H1 H2 H3. apply okc_bind.
@@ -188,7 +189,7 @@ Qed.
 Lemma ok_heap_with_additional t add g (Q : option repr -> ghost -> Prop) :
   Q None g ->
   (forall b l, g_refs g b = 0%nat -> g_excl g b = false -> g_free g b = false ->
-     Q (Some (Heap b l)) {| g_refs := setf (g_refs g) b 1%nat; g_excl := setf (g_excl g) b true; g_free := g_free g; g_fen := g_fen g |}) ->
+     Q (Some (Heap b l)) {| g_refs := setf (g_refs g) b 1%nat; g_excl := setf (g_excl g) b true; g_free := g_free g; g_fen := g_fen g; g_bor := g_bor g |}) ->
   okc (heap_with_additional t add) g Q.
 Proof.
   intros Hn Hs. unfold heap_with_additional. destruct (text_len_new (len t)) as [l|]; [|exact Hn].
@@ -197,7 +198,7 @@ Qed.
 Lemma ok_heap_new t g (Q : option repr -> ghost -> Prop) :
   Q None g ->
   (forall b l, g_refs g b = 0%nat -> g_excl g b = false -> g_free g b = false ->
-     Q (Some (Heap b l)) {| g_refs := setf (g_refs g) b 1%nat; g_excl := setf (g_excl g) b true; g_free := g_free g; g_fen := g_fen g |}) ->
+     Q (Some (Heap b l)) {| g_refs := setf (g_refs g) b 1%nat; g_excl := setf (g_excl g) b true; g_free := g_free g; g_fen := g_fen g; g_bor := g_bor g |}) ->
   okc (heap_new t) g Q.
 Proof.
   intros Hn Hs. unfold heap_new. destruct (text_len_new (len t)) as [l|]; [|exact Hn].
@@ -239,7 +240,7 @@ Proof.
     apply okc_bind. unfold heap_is_unique. apply okc_bind. cbn [load okc]. split; [exact H1|]. split; [reflexivity (* acquire: ord_is_unique_0 *)|]. intros v. cbn [okc].
     destruct (N.eqb_spec v 1) as [->|Hne].
     + (* observed 1 while holding a reference: exclusive *)
-      set (g1 := {| g_refs := g_refs g; g_excl := setf (g_excl g) b (g_excl g b || true); g_free := g_free g; g_fen := g_fen g |}).
+      set (g1 := {| g_refs := g_refs g; g_excl := setf (g_excl g) b (g_excl g b || true); g_free := g_free g; g_fen := g_fen g; g_bor := g_bor g |}).
       assert (He1 : g_excl g1 b = true) by (unfold g1; gs; apply orb_true_r).
       apply okc_bind. cbn [hdr_cap okc]. split; [left; exact H1|]. intros c. cbn [okc].
       destruct (cond_reserve_enough c needed).
@@ -248,13 +249,13 @@ Proof.
       * apply okc_bind. apply ok_heap_realloc; [exact He1|]. intros ok. cbn [okc fst snd holds holds_excl].
         split; [exact Hs|]. split; [split; [exact H1|exact H2]|]. split; [intros _; auto|apply cons_same; reflexivity].
     + (* shared: read while still holding the reference, copy, then release *)
-      set (g1 := {| g_refs := g_refs g; g_excl := setf (g_excl g) b (g_excl g b || false); g_free := g_free g; g_fen := g_fen g |}).
+      set (g1 := {| g_refs := g_refs g; g_excl := setf (g_excl g) b (g_excl g b || false); g_free := g_free g; g_fen := g_fen g; g_bor := g_bor g |}).
       apply okc_bind. cbn [read okc]. split; [left; exact H1|]. intros t. cbn [okc].
       apply okc_bind. apply ok_heap_with_additional.
       * cbn [okc fst snd holds]. split; [exact Hs|]. split; [split; [exact H1|exact H2]|].
         split; [discriminate|apply cons_same; reflexivity].
       * intros b' l' N1 N2 N3.
-        set (g2 := {| g_refs := setf (g_refs g1) b' 1%nat; g_excl := setf (g_excl g1) b' true; g_free := g_free g1; g_fen := g_fen g1 |}).
+        set (g2 := {| g_refs := setf (g_refs g1) b' 1%nat; g_excl := setf (g_excl g1) b' true; g_free := g_free g1; g_fen := g_fen g1; g_bor := g_bor g1 |}).
         assert (Hbb : b' <> b) by (intros ->; cbn [g1 g_refs] in N1; lia).
         assert (Hh2 : holds g2 (Heap b l)).
         { cbn [holds]. unfold g2, g1. gs. apply Nat.eqb_neq in Hbb. rewrite Nat.eqb_sym, Hbb. auto. }
@@ -291,13 +292,13 @@ Proof.
     destruct (N.eqb_spec v 1) as [->|Hne].
     + cbn [okc fst snd holds holds_excl]. gs. split; [exact Hs|]. split; [split; [exact H1|exact H2]|].
       split; [intros _; split; [exact H1|]; split; [exact H2|apply orb_true_r]|apply cons_same; reflexivity].
-    + set (g1 := {| g_refs := g_refs g; g_excl := setf (g_excl g) b (g_excl g b || false); g_free := g_free g; g_fen := g_fen g |}).
+    + set (g1 := {| g_refs := g_refs g; g_excl := setf (g_excl g) b (g_excl g b || false); g_free := g_free g; g_fen := g_fen g; g_bor := g_bor g |}).
       apply okc_bind. cbn [read okc]. split; [left; exact H1|]. intros t. cbn [okc].
       apply okc_bind. apply ok_heap_new.
       * cbn [okc fst snd holds]. split; [exact Hs|]. split; [split; [exact H1|exact H2]|].
         split; [discriminate|apply cons_same; reflexivity].
       * intros b' l' N1 N2 N3.
-        set (g2 := {| g_refs := setf (g_refs g1) b' 1%nat; g_excl := setf (g_excl g1) b' true; g_free := g_free g1; g_fen := g_fen g1 |}).
+        set (g2 := {| g_refs := setf (g_refs g1) b' 1%nat; g_excl := setf (g_excl g1) b' true; g_free := g_free g1; g_fen := g_fen g1; g_bor := g_bor g1 |}).
         assert (Hbb : b' <> b) by (intros ->; cbn [g1 g_refs] in N1; lia).
         assert (Hh2 : holds g2 (Heap b l)).
         { cbn [holds]. unfold g2, g1. gs. apply Nat.eqb_neq in Hbb. rewrite Nat.eqb_sym, Hbb. auto. }
@@ -322,3 +323,55 @@ Proof.
         cons_tac.
 Qed.
 
+(* ---- no event changes who borrows: the postcondition of any typed command may assume it ---- *)
+Lemma okc_bor {R} (c : cmd R) g (Q : R -> ghost -> Prop) :
+  okc c g Q -> okc c g (fun r g' => Q r g' /\ g_bor g' = g_bor g).
+Proof.
+  revert g; induction c as [r| |n k IH|b o n k IH|b n k IH|b c k IH|b k IH|b a o k IH|b o k IH|o k IH|p off n k IH|p off bs k IH|p s d n k IH];
+    intros g H; cbn [okc] in *; auto.
+  - destruct H as (H1 & H2). split; [apply IH; exact H1|]. intros b Hb1 Hb2 Hb3.
+    eapply okc_mono; [apply IH; apply H2; auto|]. intros r g' (HQ & E). split; [exact HQ|exact E].
+  - destruct H as (H1 & H2). split; [exact H1|]. intros ok. apply IH. apply H2.
+  - destruct H as (H1 & H2 & H3). split; [exact H1|]. split; [exact H2|].
+    eapply okc_mono; [apply IH; exact H3|]. intros r g' (HQ & E). split; [exact HQ|exact E].
+  - destruct H as (H1 & H2). split; [exact H1|]. apply IH. exact H2.
+  - destruct H as (H1 & H2). split; [exact H1|]. intros v. apply IH. apply H2.
+  - destruct a.
+    + destruct H as (H1 & H2). split; [exact H1|]. intros v.
+      eapply okc_mono; [apply IH; apply H2|]. intros r g' (HQ & E). split; [exact HQ|exact E].
+    + destruct H as (H1 & H2 & H3 & H4). split; [exact H1|]. split; [exact H2|]. split; [exact H3|]. intros v.
+      eapply okc_mono; [apply IH; apply H4|]. intros r g' (HQ & E). split; [exact HQ|exact E].
+  - destruct H as (H1 & H2 & H3). split; [exact H1|]. split; [exact H2|]. intros v.
+    eapply okc_mono; [apply IH; apply H3|]. intros r g' (HQ & E). split; [exact HQ|exact E].
+  - eapply okc_mono; [apply IH; exact H|]. intros r g' (HQ & E). split; [exact HQ|exact E].
+  - destruct p as [b|s].
+    + destruct H as (H1 & H2). split; [exact H1|]. intros bs. apply IH. apply H2.
+    + intros bs. apply IH. apply H.
+  - destruct p as [b|s]; [|exact H]. destruct H as (H1 & H2). split; [exact H1|]. apply IH. exact H2.
+  - destruct p as [b|s0]; [|exact H]. destruct H as (H1 & H2). split; [exact H1|]. apply IH. exact H2.
+Qed.
+
+(* ---- through a borrowed handle (&LeanString lent by another thread): reading, and cloning — the clone is the
+        borrower's own handle, accounted for exactly ---- *)
+Definition borrows (g : ghost) (r : repr) : Prop :=
+  match r with Heap b _ => g_bor g b = true /\ g_free g b = false | _ => True end.
+Lemma ok_clone_borrowed r g :
+  borrows g r -> settled g ->
+  okc (make_shallow_clone r) g (fun r' g' => r' = r /\ holds g' r /\ settled g'
+                                             /\ forall x, g_refs g' x = (g_refs g x + nm r x)%nat).
+Proof.
+  destruct r as [bs|b l|s l]; cbn [make_shallow_clone holds borrows]; intros H Hs.
+  - cbn [okc nm]. repeat split; auto.
+  - destruct H as (H1 & H2). apply okc_bind. cbn [rmw okc]. split; [right; exact H1|]. intros v. cbn [okc]. split; [reflexivity|].
+    cbn [holds]. gs. split; [split; [lia|exact H2]|]. split; [intros x; gs; apply Hs|].
+    intros x. cbn [nm]. rewrite (Nat.eqb_sym x b). destruct (Nat.eqb_spec b x) as [->|]; lia.
+  - cbn [okc nm]. repeat split; auto.
+Qed.
+Lemma ok_as_bytes_borrowed r g (Q : list N -> ghost -> Prop) :
+  borrows g r -> (forall t, Q t g) -> okc (as_bytes r) g Q.
+Proof.
+  destruct r as [bs|b l|s l]; cbn [as_bytes borrows]; intros H HQ.
+  - cbn [okc]. apply HQ.
+  - cbn [read okc]. split; [right; right; right; exact (proj1 H)|]. intros t. cbn [okc]. apply HQ.
+  - cbn [read okc]. intros t. cbn [okc]. apply HQ.
+Qed.
